@@ -294,6 +294,13 @@ class ClassVal:
 
 
 @dataclass(eq=False)
+class SuperVal:
+    """super() inside a method of `owner`, for the instance (or class) the method was called on."""
+    owner: "ClassVal"
+    first: object
+
+
+@dataclass(eq=False)
 class FuncVal:
     mod: Module
     node: ast.FunctionDef
@@ -468,6 +475,8 @@ class Interp:
             return ClassVal(name, mod, None, "exception")
         if name in ("None", "True", "False"):
             return {"None": None, "True": True, "False": False}[name]
+        if name == "super":
+            return Builtin("super")
         raise Unsupported(f"name {name!r} cannot be resolved in {mod.rel}")
 
     def class_val(self, mod: Module, node: ast.ClassDef) -> ClassVal:
@@ -503,9 +512,8 @@ class Interp:
             return hook(self, args, kwargs, site)
         self.calls.append(qual)
         a = fn.args
-        if a.posonlyargs:
-            raise Unsupported(f"{qual}: positional-only parameters")
-        params = [x.arg for x in a.args]
+        posonly = [x.arg for x in a.posonlyargs]
+        params = posonly + [x.arg for x in a.args]
         local: dict = {}
         allargs = ([fv.bound] if fv.bound is not None else []) + list(args)
         if len(allargs) > len(params) and a.vararg is None:
@@ -516,8 +524,10 @@ class Interp:
             local[a.vararg.arg] = AList(list(allargs[len(params):]), "tuple")
         kw = dict(kwargs)
         for nme in params[len(allargs):]:
-            if nme in kw:
+            if nme in kw and nme not in posonly:      # a positional-only name given as keyword lands in **kwargs
                 local[nme] = kw.pop(nme)
+        if fv.owner is not None and allargs:
+            local.setdefault("__super_args__", (fv.owner, allargs[0]))
         for ko in a.kwonlyargs:
             if ko.arg in kw:
                 local[ko.arg] = kw.pop(ko.arg)
@@ -686,6 +696,7 @@ class Interp:
     def dict_key(self, d: ADict, k, site):
         """Key under which `k` is stored/looked up.  Two different opaque literals may or may not be
         equal: the decision is forked, since the generated text then depends on literal content."""
+        self.check_hashable(k, site)
         kk = _key(k)
         if isinstance(k, Sym) and k.kind != "ident" and kk not in d.items:
             for other in list(d.items):
@@ -693,6 +704,25 @@ class Interp:
                     if self.choose(f"equal literals as dict keys ({k.src}) at {site}"):
                         return other
         return kk
+
+    def check_hashable(self, k, site, depth=0):
+        """hash(k) as Python performs it for dict keys and set members: lists, dicts and sets are unhashable; a pydantic v1 model is
+        hashable only with Config.frozen (its hash is that of the tuple of its field values, so every value must be hashable too)."""
+        if depth > 8:
+            return
+        if isinstance(k, (ADict, ASet)) or (isinstance(k, AList) and k.pytype in ("list", "deque")):
+            raise RaiseSig("TypeError", site, f"unhashable type: {k.pytype if isinstance(k, AList) else type(k).__name__[1:].lower()}")
+        if isinstance(k, AList):
+            for x in k.items:
+                self.check_hashable(x, site, depth + 1)
+        if isinstance(k, Obj) and k.cls.kind == "model":
+            self.model_fields(k.cls)
+            cfg = self._model_extra.get(k.cls.name, ({},))[0]
+            if cfg.get("frozen") is not True and cfg.get("allow_mutation") is not False:
+                raise RaiseSig("TypeError", site, f"unhashable type: '{k.cls.name}'")
+            if cfg.get("frozen") is True:
+                for x in k.attrs.values():
+                    self.check_hashable(x, site, depth + 1)
 
     def st_If(self, st, env):
         if self.truthy(self.eval(st.test, env), env.mod.site(st.test) + " " + norm(st.test)):
@@ -1049,6 +1079,8 @@ class Interp:
         return self.getattr(o, n.attr, env.mod.site(n))
 
     def getattr(self, o, attr, site):
+        if isinstance(o, SuperVal):
+            return self.super_attr(o, attr, site)
         if isinstance(o, Obj):
             if attr in o.attrs:
                 return o.attrs[attr]
@@ -1989,7 +2021,34 @@ class Interp:
                 kwargs.update(d.items)
             else:
                 kwargs[k.arg] = self.eval(k.value, env)
+        if isinstance(f, Builtin) and f.name == "super" and not args:
+            e = env
+            while e is not None and "__super_args__" not in e.local:
+                e = e.outer
+            if e is None:
+                raise Unsupported(f"super() outside a method at {site}")
+            owner, first = e.local["__super_args__"]
+            return SuperVal(owner, first)
         return self.apply(f, args, kwargs, site, n)
+
+    def super_attr(self, sv: "SuperVal", attr, site):
+        """Attribute lookup through super(): the first base class of the package that defines it, else object's."""
+        inst = sv.first if isinstance(sv.first, Obj) else None
+        for b in (sv.owner.node.bases if sv.owner.node is not None else []):
+            bn = (dotted(b) or "").split(".")[-1]
+            m_, node = self.src.resolve_name(sv.owner.mod, bn)
+            if isinstance(node, ast.ClassDef):
+                try:
+                    return self.class_attr(self.class_val(m_, node), attr, inst, site)
+                except Unsupported:
+                    continue
+        if attr == "__new__":
+            return Builtin("object.__new__")
+        if attr in ("__init__", "__init_subclass__", "__post_init__"):
+            return Builtin("object.__init__")
+        if attr == "__setattr__":
+            return PartialVal(Builtin("object.__setattr__"), [sv.first], {})
+        raise Unsupported(f"super().{attr} at {site}")
 
     def apply(self, f, args, kwargs, site, node=None):
         if isinstance(f, FuncVal):
@@ -2042,6 +2101,17 @@ class Interp:
                     pass
             raise RaiseSig("ValueError", site, f"{_describe(v)} is not a valid {cv.name}")
         o = Obj(cv, {})
+        new_fn = next((f_ for f_ in cv.node.body if isinstance(f_, ast.FunctionDef) and f_.name == "__new__"), None)
+        if new_fn is not None and cv.kind not in ("enum", "model", "exception"):
+            # a class with its own __new__: object creation (`super().__new__(cls)` / `object.__new__(cls)`) yields the fresh instance
+            old_hooks = dict(getattr(self, "builtin_hooks", {}))
+            self.builtin_hooks = {**old_hooks, "object.__new__": lambda it_, a_, k_, s_: o}
+            try:
+                made = self.call(FuncVal(cv.mod, new_fn, None, cv), [cv] + list(args), dict(kwargs), site)
+            finally:
+                self.builtin_hooks = old_hooks
+            if made is not o:
+                return made          # __new__ returned something else: __init__ is not run on it
         try:
             init = self.class_attr(cv, "__init__", o, site)
         except Unsupported:
@@ -2426,6 +2496,12 @@ class Interp:
             return AList(out, "list")
         if name == "object.__setattr__" and len(args) == 3:
             return self.builtin("setattr", args, kwargs, site)
+        if name == "object.__init__":
+            return None
+        if name == "object.__new__":
+            if args and isinstance(args[0], ClassVal):
+                return Obj(args[0], {})
+            raise Unsupported(f"object.__new__ at {site}")
         if "." in name and args:          # unbound method of a builtin type: str.lower(x) == x.lower()
             return self.method(args[0], name.split(".", 1)[1], args[1:], kwargs, site)
         if name == "str":
@@ -3014,6 +3090,9 @@ class Interp:
     def external(self, f: "ExtVal", args, kwargs, site):
         q = f"{f.module}.{f.attr}" if f.attr else f.module
         root = q.split(".")[0]
+        hook = getattr(self, "ext_hooks", {}).get(q)
+        if hook is not None:
+            return hook(self, args, kwargs, site)
         if root in ("logging", "warnings") or ".Logger()" in q:
             if q in ("logging.getLogger", "logging.Logger", "logging.LoggerAdapter"):
                 return ExtVal("logging", "Logger()")
